@@ -105,6 +105,7 @@ def parseOp (ts : List String) : Option Op :=
   | ["apat", n, _] => do pure (.addPattern (← n.toNat?))          -- 3rd token: number of multipliers (not modelled)
   | ["acur", n, t, _] => do pure (.addCurve (← n.toNat?) (← ctP t))   -- 4th token: number of points (not modelled)
   | ["acur", n, t] => do pure (.addCurve (← n.toNat?) (← ctP t))
+  | ["asrc", n, nd, p, "O"] => do pure (.addSource (← n.toNat?) (← nd.toNat?) (← optP p))
   | ["asrc", n, nd, p] => do pure (.addSource (← n.toNat?) (← nd.toNat?) (← optP p))
   | ["actl", n, ns, ls] => do
       pure (.addControl (← n.toNat?) (← natsP "," (if ns == "-" then "" else ns)) (← natsP "," (if ls == "-" then "" else ls)))
